@@ -180,9 +180,11 @@ class DTWSettings:
         return settings
 
     def set_max_dist(self, s1, s2):
-        _, _, ival_fn = innerdistance.inner_dist_fns(self.inner_dist, use_ndim=self.use_ndim)
         if self.use_pruning:
-            self.adj_max_dist = ival_fn(ub_euclidean(s1, s2, inner_dist=self.inner_dist))
+            # Keep the bound in the internal representation: transforming the final
+            # distance back (e.g. squaring a square root) can end up below the exact sum.
+            self.adj_max_dist = ed.distance(s1, s2, inner_dist=self.inner_dist,
+                                            use_ndim=self.use_ndim, keep_int_repr=True)
 
     def kwargs(self):
         return {
